@@ -219,38 +219,42 @@ def check_fext(led):
                 asm, panels, meta, r, fl = out[1]
                 offs, tot = offsets(meta)
                 probs = []
-                # r is the sum of per-panel vectors (OutArray) : 0 + v1 + v2 ...
-                vecs = r if isinstance(r, list) else collect_vectors(r)
-                if len(vecs) != N:
-                    probs.append('%d panel vectors, expected %d' % (len(vecs), N))
-                for k, v in enumerate(vecs[:N]):
-                    kw, want, g = meta[k]
+                # r is a linear combination of load vectors; flatten it into contributions (slice, coefficient * F.g)
+                contribs = []
+                for coef, v in collect_vectors(r):
                     if not isinstance(v, OutArray):
-                        probs.append('panel %d: force vector is %r' % (k + 1, v))
+                        probs.append('load vector term is %r' % (v,))
                         continue
                     if not peq(v.length, tot):
-                        probs.append('panel %d: vector length %s, expected the assembly size %s' % (k + 1, pycheck.describe(v.length), pycheck.describe(tot)))
-                    forces = [(f, P.const(1)) for f in fl[k][0]] + [(f, inc) for f in fl[k][1]]
-                    if len(v.stores) != len(forces):
-                        probs.append('panel %d: %d force contributions, expected %d' % (k + 1, len(v.stores), len(forces)))
-                        continue
-                    for st, (f, scale) in zip(v.stores, forces):
+                        probs.append('a load vector has length %s, expected the assembly size %s' % (pycheck.describe(v.length), pycheck.describe(tot)))
+                    for st in v.stores:
                         key, val, mode = st[0], st[1], st[2]
-                        x, y, fx, fy, fz = f
-                        if mode != '+=' or not isinstance(key, slice):
-                            probs.append('panel %d: contribution is not accumulated into a slice' % (k + 1))
+                        if mode != '+=' or not isinstance(key, slice) or not isinstance(val, RowComb):
+                            probs.append('contribution is not [fx,fy,fz].g accumulated into a slice')
                             continue
-                        lo = key.start if key.start is not None else 0
-                        if not peq(lo, offs[k]) or not peq(key.stop, offs[k] + 3 * kw['m'] * kw['n']):
-                            probs.append('panel %d: contribution placed at [%s:%s], expected [%s:%s]' % (k + 1, pycheck.describe(lo), pycheck.describe(key.stop),
+                        contribs.append((key.start if key.start is not None else 0, key.stop, [(c_ * coef, rf) for c_, rf in val.terms]))
+                expected = []
+                for k in range(N):
+                    kw, want, g = meta[k]
+                    for f, scale in [(f, P.const(1)) for f in fl[k][0]] + [(f, inc) for f in fl[k][1]]:
+                        expected.append((k, f, scale))
+                if len(contribs) != len(expected):
+                    probs.append('%d force contributions, expected %d' % (len(contribs), len(expected)))
+                else:
+                    for (lo, hi, terms), (k, f, scale) in zip(contribs, expected):
+                        kw, want, g = meta[k]
+                        x, y, fx, fy, fz = f
+                        if not peq(lo, offs[k]) or not peq(hi, offs[k] + 3 * kw['m'] * kw['n']):
+                            probs.append('panel %d: contribution placed at [%s:%s], expected [%s:%s]' % (k + 1, pycheck.describe(lo), pycheck.describe(hi),
                                                                                                           pycheck.describe(offs[k]), pycheck.describe(offs[k] + 3 * kw['m'] * kw['n'])))
-                        if not isinstance(val, RowComb) or len(val.terms) != 3:
+                        if len(terms) != 3:
                             probs.append('panel %d: contribution is not [fx,fy,fz].g' % (k + 1))
                             continue
-                        for d_, (coef, (row, fill)) in enumerate(val.terms):
+                        for d_, (coef, (row, fill)) in enumerate(terms):
                             wantc = (fx, fy, fz)[d_] * scale
                             if row != d_ or not peq(coef, wantc):
-                                probs.append('panel %d: coefficient of row %d of g is %s, expected %s' % (k + 1, row, pycheck.describe(coef), pycheck.describe(wantc)))
+                                probs.append('panel %d: row %d of g is weighted by %s, expected %s (force component%s)' % (k + 1, row, pycheck.describe(coef), pycheck.describe(wantc),
+                                                                                                                        ' times the load factor' if scale is inc else ''))
                             dd = pycheck.diff_kernel(fill, 'fg', 'clt_bardell_field', dict(x=x, y=y), want)
                             probs += ['panel %d: g = %s' % (k + 1, z) for z in dd]
                 report(led, name, func, probs)
@@ -258,30 +262,41 @@ def check_fext(led):
     led.bounded_item('calc_fext: number of panels in {1,2}, number of constant / incrementable forces per panel in {0,1,2} (positions, components, load factor symbolic)')
 
 
-def collect_vectors(r):
-    """0 + v1 + v2 ... built by python's += on OutArray objects"""
-    if isinstance(r, OutArray):
-        return [r]
-    if isinstance(r, VecSum):
-        return r.items
-    return []
-
-
-class VecSum(object):
+class LinVec(object):
+    """linear combination of load vectors: sum_k coef_k * vector_k"""
     def __init__(self, items):
-        self.items = items
+        self.items = items          # list of (coef, OutArray)
+
+    @staticmethod
+    def lift(o):
+        if isinstance(o, LinVec):
+            return o
+        if isinstance(o, OutArray):
+            return LinVec([(P.const(1), o)])
+        if isinstance(o, (int, P)) and not isinstance(o, bool) and (o == 0 or (isinstance(o, P) and o.is_zero())):
+            return LinVec([])
+        return None
+
+    def __add__(self, o):
+        o = LinVec.lift(o)
+        if o is None:
+            return NotImplemented
+        return LinVec(self.items + o.items)
+    __radd__ = __add__
+
+    def __mul__(self, k):
+        if isinstance(k, (int, P)) and not isinstance(k, bool):
+            return LinVec([(c * k, a) for c, a in self.items])
+        return NotImplemented
+    __rmul__ = __mul__
 
 
-def _outarray_add(self, o):
-    if isinstance(o, (int, P)) and not isinstance(o, bool) and (o == 0 or (isinstance(o, P) and o.is_zero())):
-        return self
-    if isinstance(o, OutArray):
-        return VecSum([self, o])
-    if isinstance(o, VecSum):
-        return VecSum([self] + o.items)
-    return NotImplemented
+def collect_vectors(r):
+    lv = LinVec.lift(r)
+    return lv.items if lv is not None else []
 
 
-OutArray.__add__ = _outarray_add
-OutArray.__radd__ = _outarray_add
-VecSum.__add__ = lambda self, o: VecSum(self.items + ([o] if isinstance(o, OutArray) else o.items)) if isinstance(o, (OutArray, VecSum)) else NotImplemented
+OutArray.__add__ = lambda self, o: LinVec.lift(self) + o
+OutArray.__radd__ = lambda self, o: LinVec.lift(self) + o
+OutArray.__mul__ = lambda self, k: LinVec.lift(self) * k
+OutArray.__rmul__ = lambda self, k: LinVec.lift(self) * k
